@@ -16,4 +16,52 @@ ShapesTiny(R) == {<<L>>, <<N(<<L>>)>>} \cup {<<E(n)>> : n \in R} \cup {<<L, E(n)
 ShapesWide(R) ==
     ShapesSmall(R) \cup {<<L, L>>, <<N(<<L, L>>), L>>} \cup
     {<<E(n), E(m)>> : n \in R, m \in R} \cup {<<N(<<E(n)>>), E(n)>> : n \in R}
+
+CONSTANT MaxDefers
+DeferBound == nextCid <= MaxCommits + MaxDefers + 1
+
+(* ---- generation of behaviours for replay into parity-db (stepping API, Fine = FALSE) ---- *)
+VARIABLE obs
+CONSTANTS GenLen, Pipes, RejW
+
+Proj == [vis |-> [k \in TKeys |-> VisibleRoot(k)], app |-> roots,
+         rc |-> nrc, kids |-> nkids, x |-> [x \in XKeys |-> VisibleX(x)],
+         entries |-> Entries, ideal |-> ideal, idealX |-> idealX, qlen |-> Len(queue),
+         conflict |-> conflict, corrupt |-> corrupt, quiescent |-> Quiescent, wlocked |-> WLocked]
+
+W(p) == RandomElement({j \in 1..100 : ncommits >= 0}) <= p
+
+\* steps that do not change the abstract state: other pipeline stages, clean restart, and
+\* transactions the database must reject without a trace
+Silent(rec) == hist' = Append(hist, rec) /\
+               UNCHANGED <<roots, nrc, nkids, xs, covlT, covlX, queue, inflight, toDeref, locked, snap,
+                           nextId, nextCid, ncommits, nlocks, ideal, idealX, conflictT, conflictX, corrupt>>
+Pipe == inflight = <<>> /\ \E w \in Pipes : Silent([a |-> "Pipe", w |-> w])
+Restart == Quiescent /\ locked = {} /\ Silent([a |-> "Restart"])
+RejectWide == \E k \in TKeys : ideal[k].rc = 0 /\ k \notin locked /\ VisibleRoot(k).rc = 0 /\
+                 \E n \in {256, 300} : Silent([a |-> "Reject", why |-> "wide", k |-> k, n |-> n])
+RejectOther == \E k \in TKeys : VisibleRoot(k).rc = 0 /\ ideal[k].rc = 0 /\ k \notin locked /\
+                 \E why \in {"deref_missing", "plain_op", "ins_then_bad"} :
+                     Silent([a |-> "Reject", why |-> why, k |-> k, n |-> 0])
+
+\* keeps a behaviour going when only probabilistic steps are left
+Idle == /\ inflight = <<>>
+        /\ \/ (queue = <<>> /\ ncommits = MaxCommits)
+           \/ (queue # <<>> /\ Tail(queue) = <<>> /\ MustDefer(Head(queue), <<>>))
+        /\ Silent([a |-> "Pipe", w |-> "clean"])
+
+GenNext ==
+    /\ \/ (W(IF Len(queue) >= 2 THEN 25 ELSE 70) /\ Commit)
+       \/ Idle
+       \/ (W(40) /\ \E k \in TKeys : Lock(k))
+       \/ (W(40) /\ \E k \in TKeys : Unlock(k))
+       \/ Defer \/ Process \/ Pop \/ Apply
+       \/ (W(30) /\ Pipe) \/ (W(15) /\ Restart) \/ (W(RejW) /\ RejectWide) \/ (W(RejW) /\ RejectOther)
+    /\ obs' = Append(obs, Proj')
+
+\* exhaustive checking: the observation history stays empty
+MCSpec == Init /\ obs = <<>> /\ [][Next /\ UNCHANGED obs]_<<vars, obs>>
+
+GenSpec == Init /\ obs = <<>> /\ [][GenNext]_<<vars, obs>>
+EmitTrace == TLCGet("level") < GenLen \/ PrintT("REPLAY " \o ToJson([steps |-> hist, obs |-> obs]))
 =============================================================================
